@@ -11,7 +11,7 @@ EXPLANATION = (
     "one, and each connection loop dispatches only on the Dispatch outcome, once per frame read; the off-reader closure calls "
     "dispatch once. (response-count) dispatch* return None exactly on the notify edge and Some otherwise; the Reject arm "
     "answers iff !notify; each loop writes/enqueues one frame per Some and none otherwise, before reading the next frame. "
-    "(id-echo) every response constructor copies header.id from the request it was given. (echo-rule) stamp_response_query and "
+    "(rejected-not-dispatched, shared with C16) on the WebSocket off-reader path nothing is spawned from the saturated edge of the permit test and exactly one ResourceExhausted reply is sent for a non-notify. (id-echo) every response constructor copies header.id from the request it was given. (echo-rule) stamp_response_query and "
     "response_echo_query both take the request query iff the response's own query is empty (the guard set is exact: no further condition such as the error flag), and every server write site passes "
     "the query of the request being answered. (error-code-table) the rows of route (guard -> code) are exactly "
     "{version != 1 -> VersionMismatch, non-UTF-8 -> InvalidQuery, raw-binary/unknown query format -> InvalidQuery, unknown path "
@@ -174,6 +174,23 @@ def run(facts, R):
                     "every path write -> next read crosses writer.flush()", path=w)
     if has_ws:
         ws_reader(facts, R)
+        # a request answered with ResourceExhausted (off-reader cap saturated) is rejected: its handler must not run and no
+        # second response may follow.  The cap's own rules (C16) decide exactly that: no spawn from the saturated edge, one
+        # rejection reply, nothing spawned when saturated.
+        from analysis import report as _report
+        from rules import C16 as _c16
+        sub = _report.Report(R.prop, R.tier, R.config)
+        try:
+            _c16.run(facts, sub)
+        except Exception as e:
+            sub.bad("anchor-resolution", "<crate>", "shared-C16-rules", "the shared saturation rules could not run: %s" % e)
+        keep = {"permit-before-spawn": ("no spawn without a permit", "shape"), "saturation-branch": None, "anchor-resolution": None}
+        for inst in sub.instances:
+            if inst["rule"] in keep and inst["verdict"] == "holds" and (keep[inst["rule"]] is None or inst.get("what") in keep[inst["rule"]]):
+                R.instances.append(inst)
+        for v in sub.violations:
+            if v["rule"] in keep and (keep[v["rule"]] is None or v.get("what") in keep[v["rule"]]):
+                R.bad("rejected-not-dispatched", v["fn"], v["what"], v["msg"], v.get("site"), v.get("path"))
 
     # ---------------- id-echo ---------------------------------------------------------------------------------
     id_echo(facts, R)
